@@ -1,5 +1,258 @@
-From Coq Require Import List NArith ZArith.
+(* C16 — connection limits and connection states are never violated.
+   Statements only; every proof is `exact <lemma from Proof/C16.v>`.
+   The model (Model/C16.v) transcribes connstate/state.go, connstate/config.go and the handlers of
+   scheduler/events.go that drive the State.  [run c init ops] is the state after the history [ops]
+   (any sequence of AddPending / DeletePending / MoveToActive / DeleteActive / Blacklist /
+   ClearBlacklist / clock ticks / announce results / connection-closed, failed-handshake and
+   torrent-complete events / queries, over any torrents, peers and connections); [c] is the
+   configuration after applyDefaults. *)
+From Coq Require Import List NArith ZArith Bool.
 From K.Model Require Import C16.
 From K.Proof Require C16.
-Theorem C16_stub : True.
-Proof. exact Proof.C16.stub. Qed.
+Import ListNotations.
+Local Open Scope Z_scope.
+
+(* ---- clause 1: for every torrent, pending + active never exceed the configured maximum.
+   Guard: the configured maximum is not negative (0 means "default", config.go:38). *)
+Theorem C16_capacity : forall raw ops h,
+  0 <= c_max raw ->
+  let c := apply_defaults raw in
+  let s := fst (run c init ops) in
+  n_pending h (conns s) + n_active h (conns s) <= c_max c.
+Proof. exact Proof.C16.capacity. Qed.
+Print Assumptions C16_capacity.
+
+(* the guard is necessary: state.go:182 tests `len == Max`, which a negative Max never meets, so any
+   number of distinct peers is admitted (configuration outside the documented domain) *)
+Theorem C16_negative_max_unbounded : forall raw, c_max raw < 0 ->
+  forall ps : list N, NoDup ps ->
+  let c := apply_defaults raw in
+  0 <= c_mutual c ->
+  count 0%N (conns (fst (run c init (map (fun p => AddPending p 0%N []) ps)))) = Z.of_nat (length ps).
+Proof. exact Proof.C16.negative_max_unbounded. Qed.
+Print Assumptions C16_negative_max_unbounded.
+
+(* ---- clause 2: a peer is never both pending and active for the same torrent (nor held twice) *)
+Theorem C16_exclusive_state : forall c ops h p st1 st2,
+  let s := fst (run c init ops) in
+  In ((h, p), st1) (conns s) -> In ((h, p), st2) (conns s) -> st1 = st2.
+Proof. exact Proof.C16.exclusive_state. Qed.
+Print Assumptions C16_exclusive_state.
+
+Theorem C16_never_pending_and_active : forall c ops h p cn,
+  let s := fst (run c init ops) in
+  ~ (In ((h, p), Pending) (conns s) /\ In ((h, p), Active cn) (conns s)).
+Proof. exact Proof.C16.never_pending_and_active. Qed.
+Print Assumptions C16_never_pending_and_active.
+
+(* a peer already pending or active is refused and nothing changes; promotion only from pending *)
+Theorem C16_no_double_add : forall c s p h nbrs,
+  connected s h p = true ->
+  snd (add_pending c s p h nbrs) <> AddOk /\ fst (add_pending c s p h nbrs) = s.
+Proof. exact Proof.C16.no_double_add. Qed.
+Print Assumptions C16_no_double_add.
+
+Theorem C16_active_only_from_pending : forall s cn p h closed,
+  snd (move_to_active s cn p h closed) = MoveOk ->
+  lookup (h, p) (conns s) = Some Pending /\ closed = false /\
+  lookup (h, p) (conns (fst (move_to_active s cn p h closed))) = Some (Active cn).
+Proof. exact Proof.C16.active_only_from_pending. Qed.
+Print Assumptions C16_active_only_from_pending.
+
+(* ---- clause 3: refused when too many of the peer's neighbours are already connected.
+   [num_mutual s h nbrs] = number of listed neighbours that are pending or active for h. *)
+Theorem C16_mutual_limit : forall c s p h nbrs,
+  snd (add_pending c s p h nbrs) = AddOk -> num_mutual s h nbrs <= c_mutual c.
+Proof. exact Proof.C16.mutual_limit_accept. Qed.
+Print Assumptions C16_mutual_limit.
+
+Theorem C16_mutual_limit_refuse : forall c s p h nbrs,
+  c_mutual c < num_mutual s h nbrs ->
+  snd (add_pending c s p h nbrs) <> AddOk /\ fst (add_pending c s p h nbrs) = s.
+Proof. exact Proof.C16.mutual_limit_refuse. Qed.
+Print Assumptions C16_mutual_limit_refuse.
+
+(* ---- clause 4: a replaced connection is never removed on behalf of an older one *)
+Theorem C16_replaced_conn_safe : forall s cn cn' p h,
+  lookup (h, p) (conns s) = Some (Active cn') -> cn <> cn' ->
+  delete_active s cn p h = s.
+Proof. exact Proof.C16.replaced_conn_safe. Qed.
+Print Assumptions C16_replaced_conn_safe.
+
+(* over histories: once cn' is active for (p,h), whatever happens next — including removals and
+   close events of any other connection of the same peer and torrent — cn' stays active until a
+   removal of cn' itself *)
+Theorem C16_replaced_conn_history : forall c ops1 ops2 cn' p h,
+  let s1 := fst (run c init ops1) in
+  snd (step c s1 (MoveToActive cn' p h false)) = OMove MoveOk ->
+  forallb (fun o => negb (closes_conn o cn' p h)) ops2 = true ->
+  lookup (h, p) (conns (fst (run c init (ops1 ++ MoveToActive cn' p h false :: ops2)))) = Some (Active cn').
+Proof. exact Proof.C16.replaced_conn_history. Qed.
+Print Assumptions C16_replaced_conn_history.
+
+Theorem C16_active_until_own_close : forall c s ops h p cn,
+  lookup (h, p) (conns s) = Some (Active cn) ->
+  forallb (fun o => negb (closes_conn o cn p h)) ops = true ->
+  lookup (h, p) (conns (fst (run c s ops))) = Some (Active cn).
+Proof. exact Proof.C16.active_until_own_close. Qed.
+Print Assumptions C16_active_until_own_close.
+
+(* ---- clause 5: blacklisted peers are not dialled until their blacklist expires.
+   (a) the dial decision of announceResultEvent: whoever is dialled is not blacklisted now, is not
+       the local peer and is not already connected; it holds a pending slot afterwards *)
+Theorem C16_blacklist_no_dial : forall c s h known complete self peers q,
+  match snd (step c s (Announce h known complete self peers)) with
+  | ODial d => In q d -> blacklisted s (h, q) = false /\ q <> self /\ connected s h q = false
+  | _ => False
+  end.
+Proof. exact Proof.C16.blacklist_no_dial. Qed.
+Print Assumptions C16_blacklist_no_dial.
+
+Theorem C16_dialled_are_pending : forall c s h self peers q,
+  In q (snd (announce_loop c s h self peers)) ->
+  lookup (h, q) (conns (fst (announce_loop c s h self peers))) = Some Pending.
+Proof. exact Proof.C16.dialled_are_pending. Qed.
+Print Assumptions C16_dialled_are_pending.
+
+(* (b) an accepted blacklisting at time t0 keeps the peer blacklisted at every later time
+       t < t0 + BlacklistDuration, whatever else happens, unless the torrent's blacklist is cleared *)
+Theorem C16_blacklist_until_expiry : forall c ops1 o ops2 p h,
+  let s1 := fst (run c init ops1) in
+  let s3 := fst (run c init (ops1 ++ o :: ops2)) in
+  c_nobl c = false ->
+  blacklists_key o p h = true -> blacklisted s1 (h, p) = false ->
+  forallb (fun o => negb (clears_hash o h)) ops2 = true ->
+  now s3 < now s1 + c_dur c ->
+  blacklisted s3 (h, p) = true.
+Proof. exact Proof.C16.blacklist_until_expiry. Qed.
+Print Assumptions C16_blacklist_until_expiry.
+
+(* (a)+(b): no announce result in that window dials the peer *)
+Theorem C16_blacklisted_not_dialled : forall c ops1 o ops2 p h known complete self peers,
+  let s1 := fst (run c init ops1) in
+  let s3 := fst (run c init (ops1 ++ o :: ops2)) in
+  c_nobl c = false ->
+  blacklists_key o p h = true -> blacklisted s1 (h, p) = false ->
+  forallb (fun o => negb (clears_hash o h)) ops2 = true ->
+  now s3 < now s1 + c_dur c ->
+  match snd (step c s3 (Announce h known complete self peers)) with
+  | ODial d => ~ In p d
+  | _ => False
+  end.
+Proof. exact Proof.C16.blacklisted_not_dialled. Qed.
+Print Assumptions C16_blacklisted_not_dialled.
+
+(* (c) the entry lasts exactly BlacklistDuration: with no further blacklisting of (p,h) and no
+       clearing, the peer is blacklisted at time t iff t < t0 + BlacklistDuration *)
+Theorem C16_blacklist_duration : forall c ops1 o ops2 p h,
+  let s1 := fst (run c init ops1) in
+  let s3 := fst (run c init (ops1 ++ o :: ops2)) in
+  c_nobl c = false ->
+  blacklists_key o p h = true -> blacklisted s1 (h, p) = false ->
+  forallb (fun o => negb (clears_hash o h) && negb (blacklists_key o p h)) ops2 = true ->
+  blacklisted s3 (h, p) = (now s3 <? now s1 + c_dur c).
+Proof. exact Proof.C16.blacklist_duration. Qed.
+Print Assumptions C16_blacklist_duration.
+
+Theorem C16_not_blacklisted_without_cause : forall c ops p h,
+  forallb (fun o => negb (blacklists_key o p h)) ops = true ->
+  blacklisted (fst (run c init ops)) (h, p) = false.
+Proof. exact Proof.C16.not_blacklisted_without_cause. Qed.
+Print Assumptions C16_not_blacklisted_without_cause.
+
+Theorem C16_clear_unblacklists : forall c s o h p,
+  clears_hash o h = true -> blacklisted (fst (step c s o)) (h, p) = false.
+Proof. exact Proof.C16.clear_unblacklists. Qed.
+Print Assumptions C16_clear_unblacklists.
+
+Theorem C16_disabled_never_blacklisted : forall c ops k,
+  c_nobl c = true -> blacklisted (fst (run c init ops)) k = false.
+Proof. exact Proof.C16.disabled_never_blacklisted. Qed.
+Print Assumptions C16_disabled_never_blacklisted.
+
+(* ---- executable form used on observed traces *)
+Theorem C16_check_sound : forall raw ops,
+  C16_check raw ops (snd (run (apply_defaults raw) init ops)) = true.
+Proof. exact Proof.C16.check_sound. Qed.
+Print Assumptions C16_check_sound.
+
+(* ---- non-vacuity (each is also a seed case of the harness) *)
+Definition ex_cfg := mkcfg 2 1 false 10.
+
+(* capacity is reached (2 = Max) and the third peer is refused *)
+Example C16_nonvacuous_capacity :
+  let r := run (apply_defaults ex_cfg) init
+               [AddPending 0 0 []; AddPending 1 0 []; MoveToActive 0 0 0 false; AddPending 2 0 []]%N in
+  n_pending 0%N (conns (fst r)) + n_active 0%N (conns (fst r)) = 2 /\
+  snd r = [OAdd AddOk; OAdd AddOk; OMove MoveOk; OAdd AtCapacity].
+Proof. vm_compute. split; reflexivity. Qed.
+
+(* a negative maximum admits more than the default maximum *)
+Example C16_nonvacuous_negative_max :
+  count 0%N (conns (fst (run (apply_defaults (mkcfg (-1) 3 false 0)) init
+     (map (fun p => AddPending p 0%N []) [0; 1; 2; 3; 4; 5; 6; 7; 8; 9; 10; 11]%N)))) = 12.
+Proof. vm_compute. reflexivity. Qed.
+
+(* exclusive state: double add, add while active, double promotion are refused *)
+Example C16_nonvacuous_exclusive :
+  snd (run (apply_defaults ex_cfg) init
+        [AddPending 0 0 []; AddPending 0 0 []; MoveToActive 0 0 0 false; AddPending 0 0 []; MoveToActive 1 0 0 false]%N)
+  = [OAdd AddOk; OAdd AlreadyPending; OMove MoveOk; OAdd AlreadyActive; OMove MoveInvalid].
+Proof. vm_compute. reflexivity. Qed.
+
+(* mutual limit 1: one connected neighbour is accepted, two are refused *)
+Example C16_nonvacuous_mutual :
+  snd (run (apply_defaults (mkcfg 5 1 false 10)) init
+        [AddPending 0 0 []; AddPending 1 0 []; AddPending 2 0 [0]; DeletePending 2 0; AddPending 2 0 [0; 1]]%N)
+  = [OAdd AddOk; OAdd AddOk; OAdd AddOk; OUnit; OAdd TooManyMutual].
+Proof. vm_compute. reflexivity. Qed.
+
+(* replaced connection: conn 0 of (p0,h0) is removed, the peer comes back with conn 1, a late
+   removal of conn 0 (API call and close event) leaves conn 1 in place; its own removal takes it out *)
+Example C16_nonvacuous_replaced :
+  let ops1 := [AddPending 0 0 []; MoveToActive 0 0 0 false; DeleteActive 0 0 0; AddPending 0 0 []]%N in
+  let ops2 := [DeleteActive 0 0 0; EvConnClosed 0 0 0; QActive]%N in
+  let c := apply_defaults ex_cfg in
+  snd (step c (fst (run c init ops1)) (MoveToActive 1 0 0 false)) = OMove MoveOk /\
+  forallb (fun o => negb (closes_conn o 1 0 0)) ops2 = true /\
+  snd (run c init (ops1 ++ MoveToActive 1 0 0 false :: ops2 ++ [DeleteActive 1 0 0; QActive]))
+  = [OAdd AddOk; OMove MoveOk; OUnit; OAdd AddOk; OMove MoveOk; OUnit; OUnit; OActive [1%N]; OUnit; OActive []].
+Proof. vm_compute. repeat split; reflexivity. Qed.
+
+(* blacklist: accepted at t=0 for 10 ns; blacklisted at t=9, not at t=10; not dialled at 9, dialled at 10 *)
+Example C16_nonvacuous_blacklist :
+  let c := apply_defaults ex_cfg in
+  snd (run c init [Blacklist 1 0; Blacklist 1 0; Tick 9; QBlacklisted 1 0; Announce 0 true false 99 [1; 2];
+                   Tick 1; QBlacklisted 1 0; Announce 0 true false 99 [1; 2]]%N)
+  = [OBl true; OBl false; OUnit; OBool true; ODial [2%N]; OUnit; OBool false; ODial [1%N]].
+Proof. vm_compute. reflexivity. Qed.
+
+Example C16_nonvacuous_blacklist_hyps :
+  let c := apply_defaults ex_cfg in
+  let ops1 := [AddPending 3 0 []]%N in
+  let ops2 := [Tick 9; EvFailedOut 1 0; ClearBlacklist 1; AddPending 2 1 []]%N in
+  c_nobl c = false /\ blacklists_key (EvFailedOut 1 0) 1 0 = true /\
+  blacklisted (fst (run c init ops1)) (0, 1)%N = false /\
+  forallb (fun o => negb (clears_hash o 0)) ops2 = true /\
+  now (fst (run c init (ops1 ++ EvFailedOut 1 0 :: ops2))) < now (fst (run c init ops1)) + c_dur c.
+Proof. vm_compute. repeat split; reflexivity. Qed.
+
+(* defaults (config.go:37-49): Max 0 -> 10, MaxMutual 0 -> Max, BlacklistDuration 0 -> 30 s *)
+Example C16_defaults : apply_defaults (mkcfg 0 0 false 0) = mkcfg 10 10 false 30000000000.
+Proof. vm_compute. reflexivity. Qed.
+
+(* the oracle rejects traces that break a clause (it is not constantly true) *)
+Example C16_check_rejects :
+  (* a third connection admitted at Max = 2 *)
+  C16_check ex_cfg [AddPending 0 0 []; AddPending 1 0 []; AddPending 2 0 []]%N [OAdd AddOk; OAdd AddOk; OAdd AddOk] = false /\
+  (* an old connection's removal took out its replacement *)
+  C16_check ex_cfg [AddPending 0 0 []; MoveToActive 1 0 0 false; DeleteActive 0 0 0; QActive]%N
+                   [OAdd AddOk; OMove MoveOk; OUnit; OActive []] = false /\
+  (* a blacklisted peer dialled *)
+  C16_check ex_cfg [Blacklist 1 0; Tick 9; Announce 0 true false 99 [1]]%N [OBl true; OUnit; ODial [1%N]] = false /\
+  (* too many mutual connections admitted *)
+  C16_check ex_cfg [AddPending 0 0 []; AddPending 1 0 []; DeletePending 1 0; AddPending 2 0 [0; 0]]%N
+                   [OAdd AddOk; OAdd AddOk; OUnit; OAdd AddOk] = false /\
+  (* pending and active at once *)
+  C16_check ex_cfg [AddPending 0 0 []; MoveToActive 0 0 0 false; AddPending 0 0 []]%N [OAdd AddOk; OMove MoveOk; OAdd AddOk] = false.
+Proof. vm_compute. repeat split; reflexivity. Qed.
